@@ -32,6 +32,9 @@ func init() {
 			{ID: "C02.R11", Text: "each assigned vBucket is requested: openAllStreams spawns one opener per element of the assigned vBucket list, Add(len)/Done/Wait (same rule as C15.R3)", Run: c15r3},
 			{ID: "C02.R12", Text: "the store that is read and written is the configured one (same rule as C05.R13)", Run: metadataIsTheConfiguredOne},
 			{ID: "C02.R13", Text: "the file backend's state map is a faithful map whose JSON decoding is all-or-nothing (same rule as C04.R9)", Run: wrapperFaithful},
+			{ID: "C02.R14", Text: "the Couchbase backend's load returns a complete map: every per-vBucket reader signals Done exactly once on every non-panicking path, Add(len(vbIds)), Wait before return", Run: workersSignal("couchbase.cbMetadata).Load")},
+			{ID: "C02.R15", Text: "the file backend, exhaustively over the outcomes of reading the file: read → (state, exist, nil); does not exist → (empty documents, ¬exist, nil); any other error → that error", Run: fileLoadExact},
+			{ID: "C02.R16", Text: "the first checkpoint of a vBucket is created: upsert, on key-not-found create then upsert again, last step's error returned (same rule as C05.R15)", Run: upsertLadder},
 			{ID: "C02.R6", Text: "read-only wrapper: Save/Clear perform no call and return nil, Load forwards its parameters; Start wraps the metadata whenever Metadata.ReadOnly and under no other condition", Run: c02r6},
 		},
 	})
